@@ -305,6 +305,12 @@ class Ctx:
         os.makedirs(evdir, exist_ok=True)
         with open(os.path.join(evdir, self.prop + ".json"), "w") as f:
             json.dump(ev, f, indent=1, default=str)
+        if self.tier == "thorough" and not machinery_failed:
+            # keep the deepest run next to the per-change evidence (evidence/<id>.json is rewritten by whichever tier ran last)
+            tdir = os.path.join(ROOT, "evidence_thorough")
+            os.makedirs(tdir, exist_ok=True)
+            with open(os.path.join(tdir, self.prop + ".json"), "w") as f:
+                json.dump(ev, f, indent=1, default=str)
         shutil.rmtree(self.tmp, ignore_errors=True)
         print("%s %s tier=%s seed=%d states=%d transitions=%d impl-cases=%d nontrivial=%d wall=%.0fs"
               % ("MACHINERY-ERROR" if machinery_failed else "PASS" if rc == 0 else "FAIL", self.prop, self.tier, self.seed, self.states,
